@@ -89,7 +89,7 @@ Check (C06_mldrec_roundtrip : forall r b,
              mldrec_parse (bs ++ mldrec_payload r) = Ok r).
 
 Check (C06_mldrec_reparse : forall bs r,
-  bytes_ok bs = true -> mldrec_check_len bs = Ok tt ->
+  bytes_ok bs = true ->
   mldrec_parse bs = Ok r -> ipv6_addr_is_multicast (mldrec_addr r) = true ->
   mldrec_wf r = true /\
   forall b, blen b = mldrec_buffer_len r ->
